@@ -30,8 +30,8 @@ SWEEPS = [
     dict(name="c07sweepsimd", flags=_COMMON, mode="simd"),
     dict(name="c07sweepnosimd", flags=_COMMON + ["-DRKCOMMON_NO_SIMD"], mode="nosimd"),
 ]
-QUICK_STRIDE = 7          # odd, so every low-mantissa pattern is visited; plus +-64 patterns around ~1000 boundary values
-RULE = ("(a) sweep: every float bit pattern (thorough: all 2^32; quick: every 7th plus +-64 patterns around every power of two, "
+QUICK_STRIDE = 3          # odd, so every low-mantissa pattern is visited; plus +-64 patterns around ~1000 boundary values
+RULE = ("(a) sweep: every float bit pattern (thorough: all 2^32; quick: every 3rd plus +-64 patterns around every power of two, "
         "mantissa extreme, 0, denormal limits, flt_min, 1, 2^126, flt_max, inf, both signs) through the real rcp, rsqrt, rcp_safe, "
         "linear_to_srgb∘cvt_uint32, cvt_uint32 and the raw rcpss/rsqrtss estimates, in the SIMD and the NO_SIMD build; "
         "(b) op lines, both builds, compared bit for bit with the Lean model at Float32: unary kernels on a boundary-heavy pool "
@@ -57,6 +57,7 @@ EXPLAIN = ("the real kernel and the Lean model (for which the C07 theorems are p
            "either the code no longer computes the modelled formula or the model is out of date")
 
 FIXED_PREFIX = 0
+KF_DENORMAL_SCALE = "C07-uniform-real-denormal-scale"
 
 # --------------------------------------------------------------------------- float helpers
 
@@ -306,7 +307,10 @@ def _range(rng):
     if r < 0.5:
         return rng.pick([(-1e38, 1e38), (-1.5e38, 1.5e38), (0.0, 3e38), (-3e38, 0.0), (1e38, 3e38), (-b2f(1), b2f(1)),
                          (0.0, b2f(0x007FFFFF)), (b2f(0x00800000), b2f(0x00800005)), (-1e10, 600.0), (-1.0, 1e-30),
-                         (16777216.0, 16777218.0), (-1e-30, 1.0)])
+                         (16777216.0, 16777218.0), (-1e-30, 1.0),
+                         # widths in [2^-118, 2^-94): (u-l)/2^32 is a denormal float (known finding for uniform_real)
+                         (0.0, b2f(0x05400000)), (0.0, 1.25 * 2.0 ** -100), (-(2.0 ** -110), 1.75 * 2.0 ** -110),
+                         (2.0 ** -100, 1.3125 * 2.0 ** -100)])
     if r < 0.8:
         a, b = r32(rng.uniform(-100, 100)), r32(rng.uniform(-100, 100))
     else:
@@ -389,6 +393,7 @@ HAND_MISC = [
     "pcg 42 54 6", "pcg 0 0 4", "pcg -1 -1 4",
     "biased 1 2 00000000 3f800000 8", "biased 0 0 bf800000 3f800000 8", "biased 7 7 40a00000 40a00000 3",
     "urdp 1 2 00000000 3f800000 8", "urd 00000000 3f800000 0 4294967295 4294967295", "urd c0000000 40a00000 1 2147483646 1",
+    "urd 00000000 05400000 0 4294967295 4294967295",   # the known finding's witness (model and code agree; the oracle classifies it)
     "color 0", "color 1", "color 4294967295",
 ]
 
@@ -503,20 +508,23 @@ def oracle(line, out, mode):
             return "cvt_uint32 must be 0 for inputs <= 0"
         if x >= 1 and v != 255:
             return "cvt_uint32 must be 255 for inputs >= 1"
-        if 0 <= x <= 1 and abs(v - 255.0 * x) > 0.5 + 1e-4:
-            return "cvt_uint32 must round 255*x to the nearest integer"
     elif op == "pcg":
         if [int(t, 16) for t in o] != ref_pcg32(int(w[1]), int(w[2]), int(w[3])):
             return "pcg32 stream differs from the reference PCG32 for this (seed, sequence)"
     elif op in ("biased", "urdp", "urd"):
         if op == "urd":
             lo, hi = h2f(w[1]), h2f(w[2])
+            span = r32(float((int(w[4]) - int(w[3])) % 2 ** 32))
         else:
             lo, hi = h2f(w[3]), h2f(w[4])
+            span = 2.0 ** 32
         tol = 2 * ulp_at(max(abs(lo), abs(hi)))
         for t in o:
             y = h2f(t)
             if not (lo - tol <= y <= hi + tol):
+                # known finding: uniform_real_distribution whose scale (u-l)/float(max-min) is a denormal float
+                if op != "biased" and y > hi and span > 0 and 0 < r32(hi - lo) / span < 2.0 ** -126:
+                    return "KNOWN:" + KF_DENORMAL_SCALE
                 return "distribution value %r outside [lower,upper] = [%r,%r] by more than a rounding step" % (y, lo, hi)
     elif op == "color":
         for t in o:
@@ -635,6 +643,12 @@ def extra_stage(rep, ctx):
                     x = h2f(w[1])
                     if x == x:
                         mono["cvt"].append((x, int(o)))
+                if msg and msg.startswith("KNOWN:"):
+                    fid = msg[6:]
+                    if fid in known:
+                        rep.known(fid, known[fid]["text"])
+                        continue
+                    msg = "uniform_real_distribution returns a value beyond upper (denormal scale)"
                 if msg and reported < 3:
                     reported += 1
                     found = True
@@ -669,13 +683,16 @@ MANIFEST = dict(
           "monotone); byte k of the packed word is channel k; both float distributions stay in [lower,upper] in exact arithmetic and "
           "within an explicit rounding margin under the rounding model; streams are functions of (seed, sequence). NOT proved, only "
           "validated on this machine: the rcpss/rsqrtss estimate bound, monotonicity of libm powf, and the float rounding model — by "
-          "an exhaustive sweep of all 2^32 bit patterns through the real kernels in both builds (thorough tier; every 7th pattern plus "
+          "an exhaustive sweep of all 2^32 bit patterns through the real kernels in both builds (thorough tier; every 3rd pattern plus "
           "all boundary neighbourhoods in the quick tier). The model is tied to the code by bit-exact comparison at Float32 in the "
           "SIMD and the NO_SIMD build (the hardware estimate is fed to the model as an input)."),
     note=("Trusted: Lean kernel + propext/Classical.choice/Quot.sound; hand-written model tied to the code only by the bit-exact "
-          "correspondence harness; the standard model of float rounding; the estimate/powf contracts hold on the machine that runs "
-          "the sweep (observed). rcp_safe's 'not of opposite sign' is read as x>0 -> result>=0... the theorem proves the strict "
-          "form in the field model, the sweep checks the non-strict form (for |x|>=2^126 the SIMD result underflows to a zero of the "
-          "sign of x). Distribution ranges whose width overflows float, NaN inputs of cvt_uint32 (undefined conversion) and signed "
-          "overflow in divRoundUp are input restrictions."),
+          "correspondence harness (both builds); the standard model of float rounding; the estimate/powf contracts hold on the machine "
+          "that runs the sweep (observed, not proved — this is why the claim is partial). rcp_safe: the theorem proves the strict form "
+          "(x>=0 -> result>0, x<0 -> result<0) in the field model; the sweep checks 'finite and not of opposite sign' (for |x|>=2^126 "
+          "the SIMD result underflows to a zero of the sign of x; rcp_safe(-0.0f) = +1/FLT_MIN because the code tests x >= 0.f). "
+          "Known finding C07-uniform-real-denormal-scale: uniform_real_distribution<float> with a range narrower than 2^-94 returns "
+          "values up to a third beyond upper (the rounded-range theorem is _partial: it assumes no underflow). Input restrictions: "
+          "distribution ranges whose width overflows float, NaN inputs of cvt_uint32 (undefined float->uint conversion), signed "
+          "overflow of a+b in divRoundUp (the exact side condition is a+b <= INT_MAX, stated in divRoundUp32_eq)."),
     technique="Lean 4 proof (ordered-field error analysis, bit arithmetic) + bit-exact differential check in two builds + exhaustive 2^32 sweep of the real kernels")
